@@ -296,6 +296,14 @@ func (c *Ctx) opaqueType(t types.Type) bool {
 	}
 	if n, ok := t.(*types.Named); ok {
 		if td := c.typeDecl(n); td != nil && td.Opaque {
+			// "opt transparent T ...": this function's contract looks inside a type the package otherwise keeps opaque
+			if c.fc != nil {
+				for _, tn := range strings.Fields(c.fc.Opts["transparent"]) {
+					if tn == n.Obj().Name() {
+						return false
+					}
+				}
+			}
 			return true
 		}
 	}
@@ -604,6 +612,12 @@ func (c *Ctx) heap0(fam, leaf string) Term {
 	c.heapInit[fam] = t
 	c.heapLeaf[fam] = leaf
 	c.rangeAxiomHeap(t, fam)
+	if strings.HasSuffix(fam, "#ref") && c.fc != nil && (c.fc.Opts["fragment"] != "" || c.fc.Opts["entry-refs-bounded"] != "") && c.allocEntry.S != "" {
+		// heap well-formedness at entry: a reference stored in the entry heap points at an object that exists at entry
+		// (so it cannot alias anything allocated later, e.g. the box of an address-taken local)
+		c.raw(fmt.Sprintf("(assert (forall ((r Int) (i %s)) (! (<= (select (select %s r) i) %s) :pattern ((select (select %s r) i)))))",
+			c.idxSort(), t.S, c.allocEntry.S, t.S))
+	}
 	return t
 }
 
